@@ -137,8 +137,18 @@ def jIds (rs : List Row) : Json := jList (fun r => Json.str (toString r.id)) rs
 def jPage {Q} (enc : Q → JVal) (p : Page Q) : Json :=
   Json.mkObj [("data", jIds p.data), ("hasMore", .bool p.hasMore), ("next", jToken enc p.next), ("previous", jToken enc p.previous)]
 
-/-- the traversal the harness performs, on the model: forward along `next`, `previous` from every page and `next`
-of the page so reached, and the whole way back from the last page -/
+/-- a page reduced to what the resume walks report: ids, `hasMore`, and whether a `next` token came with it -/
+def jLite {Q} (p : Page Q) : List (String × Json) :=
+  [("data", jIds p.data), ("hasMore", .bool p.hasMore), ("hasNext", .bool p.next.isSome)]
+
+/-- `Iterate` started from query `q` (the harness's `resumeOut`) -/
+def resumeOut {Q} (step : Q → Option (Page Q)) (xfer : Q → Option Q) (fuel : Nat) (q : Q) : Json :=
+  match walk step xfer fuel q with
+  | none => Json.mkObj [("pages", Json.arr #[]), ("error", Json.str "model")]
+  | some pages => Json.mkObj [("pages", jList (fun p => Json.mkObj (jLite p)) pages), ("error", Json.null)]
+
+/-- the traversal the harness performs, on the model: forward along `next`, `previous` from every page, `next`
+of the page so reached and the forward walk resumed from that page, and the whole way back from the last page -/
 def walkOut {Q} (enc : Q → JVal) (step : Q → Option (Page Q)) (xfer : Q → Option Q) (fuel : Nat) (q0 : Q) : Json :=
   match walk step xfer fuel q0 with
   | none => Json.mkObj [("error", Json.str "model: the walk did not end")]
@@ -148,16 +158,19 @@ def walkOut {Q} (enc : Q → JVal) (step : Q → Option (Page Q)) (xfer : Q → 
       match pg.previous with
       | none => none
       | some pq =>
-        match xfer pq >>= step with
+        match xfer pq with
         | none => some (Json.mkObj [("from", toJson k), ("error", Json.str "model")])
-        | some pp =>
-          let back := match pp.next with
-            | none => Json.null
-            | some nq => match xfer nq >>= step with
-              | none => Json.str "model"
-              | some np => jIds np.data
-          some (Json.mkObj [("from", toJson k), ("page", jPage enc pp), ("back", back)]))
-    let backwalk := match pages.getLast? with
+        | some pq' =>
+          match step pq' with
+          | none => some (Json.mkObj [("from", toJson k), ("error", Json.str "model")])
+          | some pp =>
+            let back := match pp.next with
+              | none => Json.null
+              | some nq => match xfer nq >>= step with
+                | none => Json.str "model"
+                | some np => jIds np.data
+            some (Json.mkObj [("from", toJson k), ("page", jPage enc pp), ("resume", resumeOut step xfer fuel pq'), ("back", back)]))
+    let backPages : List (Page Q) := match pages.getLast? with
       | none => []
       | some last =>
         match last.previous with
@@ -165,9 +178,24 @@ def walkOut {Q} (enc : Q → JVal) (step : Q → Option (Page Q)) (xfer : Q → 
         | some pq =>
           match xfer pq with
           | none => []
-          | some q' => ((walkBack step xfer fuel q').getD []).map (fun (p : Page Q) => jIds p.data)
+          | some q' => (walkBack step xfer fuel q').getD []
+    let backwalk := backPages.map (fun (p : Page Q) => jIds p.data)
+    let backflags := backPages.map (fun (p : Page Q) => Json.mkObj [("hasMore", .bool p.hasMore), ("hasNext", .bool p.next.isSome)])
     Json.mkObj [("pages", jList (jPage enc) pages), ("error", Json.null), ("prevs", Json.arr prevs.toArray),
-      ("backwalk", Json.arr backwalk.toArray)]
+      ("backwalk", Json.arr backwalk.toArray), ("backflags", Json.arr backflags.toArray)]
+
+/-- over HTTP: the client is on page `pg` and sends `next` back until `hasMore` is false; one entry per response -/
+def followHttp {Q} (step : Q → Option (Page Q)) (xfer : Q → Option Q) : Nat → Page Q → List Json
+  | 0, _ => []
+  | fuel + 1, pg =>
+    if pg.hasMore then
+      match pg.next >>= xfer with
+      | none => [Json.mkObj [("status", toJson (400 : Nat))]]
+      | some q' =>
+        match step q' with
+        | none => [Json.mkObj [("status", toJson (500 : Nat))]]
+        | some np => Json.mkObj ([("status", toJson (200 : Nat))] ++ jLite np) :: followHttp step xfer fuel np
+    else []
 
 def resOut {Q} (enc : Q → JVal) : Res Q → Json
   | .ok p => Json.mkObj [("res", Json.str "ok"), ("page", jPage enc p)]
@@ -265,7 +293,8 @@ def handle : Handler := fun j => do
                   | none => [Json.mkObj [("from", toJson k), ("status", toJson (400 : Nat))]]
                   | some pq' => match step pq' with
                     | none => [Json.mkObj [("from", toJson k), ("status", toJson (500 : Nat))]]
-                    | some pp => [Json.mkObj [("from", toJson k), ("status", toJson (200 : Nat)), ("query", canon pq'), ("data", jIds pp.data)]]
+                    | some pp => [Json.mkObj ([("from", toJson k), ("status", toJson (200 : Nat)), ("query", canon pq')] ++ jLite pp ++
+                        [("resume", Json.arr (followHttp step xfer (tbl.length + 4) pp).toArray)])]
               if pg.hasMore then
                 match pg.next >>= xfer with
                 | none => ([st, Json.mkObj [("status", toJson (400 : Nat))]], pv)
